@@ -10,6 +10,22 @@ CHECKS = {
          "Every generated datagram (classes: random, bit flips, field swaps, re-signings under every other key, wrong signing bytes, boundary slots, sentinels, unknown/banned ids, truncated/padded, positive controls) is delivered to the real server at each (now, offset) configuration; a full state snapshot under the server's own lock before and after plus the report log bytes are compared with what an independent reference predicate and slot model allow. Held = no unacceptable datagram changed any observable and every acceptable one had exactly the model's effect, on the executions run.",
          "Trusts go-ethereum's secp256k1 verification, the verif-tag snapshot accessor (cross-checked against the public sync/recent-reports/stats surfaces), and that gated background jobs do nothing. Sampled input space, not exhaustive.",
          "DESIGN.md §4 C01"),
+ "C09": ("exploration", "runtime monitor: wire capture at a UDP sink + history.dat byte monitor over random energy-file edit/restart histories (logical tick clock); model-based test of the history store with direct 64-bit-offset file reads",
+         "For every generated scenario (sequence of energy-file versions produced by random edits, with client restarts) all datagrams captured per timeslot with power outside {0,1} must be byte-identical, verify under the device key and carry the reference value of the slot's first accepted reading; history.dat is read after every step (header constant, non-zero cells immutable and equal to a first reading). The history store is driven with (timeslot, value) pairs up to 2^32-1 incl. the 32-bit-offset wrap zone against a map model with header, touched-cell, alias-cell and whole-file checks. Held = no violation other than the two registered 32-bit-history findings on the executions run; only emitted datagrams are judged, sync retransmission is C08's.",
+         "Trusts lib/efref (independent reference of the energy-file rule, its CSV splitter validated offline against encoding/csv on 4.7M inputs), go-ethereum signature verification, loopback UDP (a lost datagram is simply unjudged), client.VerifTicks as the logical clock.",
+         "DESIGN.md §4 C09"),
+ "C16": ("exploration", "runtime monitor: differential oracle of the real energy-file reader and the datagrams of free-running clients against an independent reference (own CSV splitter, exact big-number truncation) over generated files x calibration files",
+         "On every generated (calibration, file) pair the real client's reader output is compared with an independent reference: exact list equality for well-formed CSV, exact prefix + soundness after a CSV-level error, crash-freedom only for NaN/Inf/overflow/zero divider. Calibration files: read-back bit-equality, malformed -> error not crash. Every datagram the free-running clients emit must verify under the client key and carry a rule-derived (slot, value). Rows 2^32 s or more after genesis must be skipped or land in their true slot. ~16k files quick, ~300k thorough; sampled by class.",
+         "Trusts strconv.ParseFloat as the definition of 'is a float', go-ethereum verification, verif-tag accessors, amd64 float->uint64 semantics for negatives.",
+         "DESIGN.md §4 C16"),
+ "C18": ("exploration", "model-based runtime monitoring of generated op histories on the real EventLogger + race-detector stress batch",
+         "Each of ~19k (quick) / ~212k (thorough) generated histories of Printf / ExpireLogs / DumpLogEntries is replayed against the real EventLogger; after each operation the dump is compared with an independent reference model: size bound, truncation, newest-line retention, no eviction when the line fits (accounting after expiry), exact least-recently-updated-prefix eviction, dump order. Expiration cuts are placed relative to timestamps learned from the dump, no clock value is predicted. Concurrent use by 8 goroutines is checked for bound, panics and data races only. Sampled histories; equal-timestamp ties are handled soundly but did not occur.",
+         "Trusts fmt.Sprintf, time.Time comparisons / Go monotonic clock, the Go race detector, and the harness model (validated on 15 mutants incl. the revert of the event-log fix).",
+         "DESIGN.md §4 C18"),
+ "C19": ("exploration", "interval-arithmetic runtime monitoring of concurrent schedules on the real RateLimiter (race and plain builds) + the real /archive endpoint",
+         "For all 24 (limit, window) configurations, six arrival patterns and 1-64 callers every Allow() call is bracketed by monotonic clock reads and judged with interval arithmetic: only certain over-admission (limit+1 admitted calls certainly inside one window) and certain starvation (a rejection with fewer than limit possibly-preceding admissions under the widest reading of 'window') are reported; ~98% of decisions were certain. Boundary effects smaller than the call intervals are undecidable by construction. Schedules are sampled.",
+         "Trusts CLOCK_MONOTONIC to be consistent across CPUs within 2 us, the race detector, lib/drv for the endpoint sub-check.",
+         "DESIGN.md §4 C19"),
 }
 NOT_YET = "check not built yet in this round (planned, see DESIGN.md §4); not claimed until it exists and is silent on the unchanged tree"
 
